@@ -20,5 +20,6 @@ JudgeMore(e) ==
     [] e.ev = "indent" -> Judge_indent(e)
     [] e.ev = "std"    -> Judge_std(e)
     [] e.ev = "call"   -> Judge_call(e)
+    [] e.ev = "optseq" -> Judge_optseq(e)
     [] OTHER -> << Chk("TOOL", "TOOL", "unknown event kind", FALSE) >>
 =============================================================================
